@@ -41,7 +41,21 @@ def nasty_rules(r, letters, cellvals):
         "noback match (%%a*)+ %s%s (.*)*%s %s" % (ch(a), ch(b), ch(b), d(cb)), "noback match !(%s*) %s - %s" % (ch(a), ch(b) + ch(a), d(ca)),
         "nofor match (%s*)* %s%s - %s" % (ch(a), ch(a), ch(b), d(ca)),
     ]
-    return r.sample(pool, r.range(1, 4))
+    # pairs that close a cycle only together: one rule moves the position to the left without output (look-back and an
+    # empty bracket), the other consumes the cell again without output
+    pairs = []
+    for dr, stage in (("nofor", "pass2"), ("nofor", "pass3"), ("noback", "pass2"), ("noback", "pass4")):
+        pairs.append(["%s %s _1[]@%s ?" % (dr, stage, d(ca)), "%s %s @%s ?" % (dr, stage, d(ca))])
+        pairs.append(["%s %s _1[]@%s ?" % (dr, stage, d(ca)), "%s %s @%s @%s" % (dr, stage, d(ca), d(cb)), "%s %s @%s ?" % (dr, stage, d(cb))])
+        pairs.append(["%s %s _2[]@%s ?" % (dr, stage, d(ca)), "%s %s @%s-%s ?" % (dr, stage, d(cb), d(ca)), "%s %s @%s ?" % (dr, stage, d(ca))])
+    for dr in ("nofor", "noback"):
+        pairs.append(['%s correct _1[]"%s" ?' % (dr, ch(a)), '%s correct "%s" ?' % (dr, ch(a))])
+        pairs.append(['%s context _1[]%s ?' % (dr, ('"%s"' % ch(a)) if dr == "noback" else "@" + d(ca)),
+                      '%s context %s ?' % (dr, ('"%s"' % ch(a)) if dr == "noback" else "@" + d(ca))])
+    out = r.sample(pool, r.range(1, 4))
+    if r.chance(0.5):
+        out += r.choice(pairs)
+    return out
 
 
 def bound_for(L, O):
